@@ -62,13 +62,24 @@ func famShadow(r *rand.Rand, idx int) caseInput {
 	if !nested && r.Intn(3) == 0 {
 		e.emit("lw t4, 0(s2)")
 	}
-	// independent cache-missing loads ahead of the branch occupy execute units until shortly before the
-	// branch resolves, so that shadow instructions execute in the last cycles before the resolution
-	if r.Intn(2) == 0 {
-		for n := 1 + r.Intn(3); n > 0; n-- {
-			e.emit("lw a2, %d(zero)", 64*(20+r.Intn(8))+4*r.Intn(4))
-			for pad := r.Intn(7); pad > 0; pad-- {
-				e.emit("addi t4, zero, %d", r.Intn(100))
+	// the second branch operand is usually settled long before the branch, so that a branch fed by a missing
+	// load has a single pending operand, is dispatched with forwarding and waits inside an execute unit
+	a1Early := r.Intn(4) != 0
+	a1Done := false
+	var a1Val int32
+	preloads := func() {
+		if a1Early {
+			e.emit("li a1, %d", a1Val)
+			a1Done = true
+		}
+		// independent cache-missing loads ahead of the branch occupy execute units until shortly before the
+		// branch resolves, so that shadow instructions execute in the last cycles before the resolution
+		if r.Intn(2) == 0 {
+			for n := 1 + r.Intn(3); n > 0; n-- {
+				e.emit("lw a2, %d(zero)", 64*(20+r.Intn(8))+4*r.Intn(4))
+				for pad := r.Intn(7); pad > 0; pad-- {
+					e.emit("addi t4, zero, %d", r.Intn(100))
+				}
 			}
 		}
 	}
@@ -120,18 +131,22 @@ func famShadow(r *rand.Rand, idx int) caseInput {
 		case "bnez":
 			set(func(a, b int32) bool { return a != 0 })
 		}
+		a1Val = y
+		preloads()
 		if late {
 			// x comes from memory at 0(s0)
 			a := regs[regIdx("s0")]
 			mem[a], mem[a+1], mem[a+2], mem[a+3] = int8(x), int8(x>>8), int8(x>>16), int8(x>>24)
 			e.emit("lw a0, 0(s0)")
-			if r.Intn(2) == 0 {
+			if r.Intn(4) == 0 {
 				e.emit("addi a0, a0, 0")
 			}
 		} else {
 			e.emit("li a0, %d", x)
 		}
-		e.emit("li a1, %d", y)
+		if !a1Done {
+			e.emit("li a1, %d", y)
+		}
 		if op == "beqz" || op == "bnez" {
 			e.emit("%s a0, %s", op, join)
 		} else {
@@ -139,12 +154,18 @@ func famShadow(r *rand.Rand, idx int) caseInput {
 		}
 	case kind == 7:
 		taken = true
+		a1Early = false
+		preloads()
 		e.emit("j %s", join)
 	case kind == 8:
 		taken = true
+		a1Early = false
+		preloads()
 		e.emit("jal %s, %s", pick(r, []string{"t4", "ra", "zero"}), join)
 	default:
 		taken = true
+		a1Early = false
+		preloads()
 		// jalr to the join point: target pc = (count + 2 + shadowLen) * 4 after the li
 		target := (e.count + 2 + shadowLen) * 4
 		e.emit("li t5, %d", target)
